@@ -36,3 +36,71 @@ def compile_outcome(text, env=None):
 
     e = env or jsonpath.DEFAULT_ENV
     return core.outcome(lambda: e.compile(text))
+
+
+# ---------------------------------------------------------------- every way of asking the same question
+
+_loop = None
+
+
+def _run(coro):
+    import asyncio
+    global _loop
+    if _loop is None or _loop.is_closed():
+        _loop = asyncio.new_event_loop()
+    return _loop.run_until_complete(coro)
+
+
+def entry_points(text, compiled, env=None):
+    """name -> function(doc, filter_context) returning the list of (path, value) pairs (or values only, marked by the
+    name ending in ':values') through one public entry point. `env` None = the module-level functions."""
+    import jsonpath
+
+    E = env if env is not None else jsonpath
+
+    def pv(ms):
+        return [[m.path, core.canon(m.obj)] for m in ms]
+
+    async def acollect(ait):
+        return [m async for m in ait]
+
+    eps = {
+        "compiled.finditer": lambda d, c: pv(compiled.finditer(d, filter_context=c)),
+        "compiled.findall:values": lambda d, c: [core.canon(v) for v in compiled.findall(d, filter_context=c)],
+        "compiled.match:first": lambda d, c: (lambda m: [] if m is None else pv([m]))(compiled.match(d, filter_context=c)),
+        "compiled.query": lambda d, c: pv(compiled.query(d, filter_context=c)),
+        "compiled.query.items": lambda d, c: [[p, core.canon(v)] for p, v in compiled.query(d, filter_context=c).items()],
+        "compiled.finditer_async": lambda d, c: pv(_run(acollect(_run(_aw(compiled.finditer_async(d, filter_context=c)))))),
+        "compiled.findall_async:values": lambda d, c: [core.canon(v) for v in _run(compiled.findall_async(d, filter_context=c))],
+        "env.finditer": lambda d, c: pv(E.finditer(text, d, filter_context=c)),
+        "env.findall:values": lambda d, c: [core.canon(v) for v in E.findall(text, d, filter_context=c)],
+        "env.match:first": lambda d, c: (lambda m: [] if m is None else pv([m]))(E.match(text, d, filter_context=c)),
+        "env.query(positional context)": lambda d, c: pv(E.query(text, d, c)),
+        "env.finditer_async": lambda d, c: pv(_run(acollect(_run(_aw(E.finditer_async(text, d, filter_context=c)))))),
+        "env.findall_async:values": lambda d, c: [core.canon(v) for v in _run(E.findall_async(text, d, filter_context=c))],
+    }
+    return eps
+
+
+async def _aw(x):
+    return await x
+
+
+def compare_entry_points(ctx, text, compiled, doc, extra, reference, what, inp, env=None, only=None):
+    """`reference` = [[path, value], …] from the harness's primary call. Every other entry point must give the same."""
+    for name, fn in entry_points(text, compiled, env).items():
+        if only is not None and name not in only:
+            continue
+        r = core.outcome(lambda: fn(doc, extra))
+        if "err" in r:
+            ctx.violation(what, {**inp, "entry_point": name}, r["err"], "the same matches as every other entry point")
+            continue
+        got = r["ok"]
+        if name.endswith(":values"):
+            want = [v for _, v in reference]
+        elif name.endswith(":first"):
+            want = reference[:1]
+        else:
+            want = reference
+        if got != want:
+            ctx.violation(what, {**inp, "entry_point": name}, got[:6], want[:6])
